@@ -162,15 +162,17 @@ impl<'a> Evaluator<'a> {
                 match self.evaluate_expression_factor(factor, track_usage)? {
                     Some(value) => match value {
                         SymbolData::Number(mut number) => {
+                            // (both prefixes can only be written as '!-x': the minus stands next to the factor, so it
+                            // is applied first)
+                            if flags.contains(ExpressionFactorFlags::NEG) {
+                                number = -number;
+                            }
                             if flags.contains(ExpressionFactorFlags::NOT) {
                                 if number == 0 {
                                     number = 1
                                 } else {
                                     number = 0
                                 }
-                            }
-                            if flags.contains(ExpressionFactorFlags::NEG) {
-                                number = -number;
                             }
                             Ok(Some(number.into()))
                         }
